@@ -18,7 +18,7 @@ def item_text(it):
     if k == "lit":
         c = it.get("c", 0)
         ch = chr(c)
-        return ch if ch.isalnum() and c < 128 else ("\\n" if c == 10 else "\\" + ch)
+        return ch if (ch.isalnum() and c < 128) or ch == "-" else ("\\n" if c == 10 else "\\" + ch)
     if k == "any":
         return "."
     if k == "class":
